@@ -642,6 +642,15 @@ class ExprMixin:
                 _, _, accs = self.w.obj(t.name)
                 ref = base.ref.ext(("f", t.name, attr)) if base.ref else None
                 return SV(self.acc(accs[attr], base.term), ft, ref=ref, fresh=base.fresh)
+            # a @property defined in the class or one of its bases: evaluate its body
+            ci_ = self.w.repo.find_class(t.name)
+            if ci_ is not None:
+                for cn_ in self.w.repo.mro_names(ci_):
+                    c2_ = self.w.repo.find_class(cn_, ci_.module)
+                    if c2_ is not None and attr in c2_.methods and \
+                            any(d_.split(".")[-1] == "property" for d_ in c2_.methods[attr].decorators):
+                        call = ast.Call(func=ast.Name("_p", ast.Load()), args=[], keywords=[], lineno=line, col_offset=0)
+                        return self.call_function(f"{c2_.module}.{c2_.name}.{attr}", [], {}, call, self_val=base)
             return BoundMethod(base, attr)
         if t.kind == "union":
             s = self.w.sort(t)
